@@ -175,6 +175,18 @@ CLAIMS = {
         "numerically, not mechanised.",
         COMMON_NOTE + "Axioms: standard-library real-number axioms.",
         "DESIGN.md §3 C04"),
+    "C07": (
+        "Coq proof (the FSM of from_pauli_sum denotes its term list, for every length and term list; Ising Trotter step covers every bond once) + exact FSM decode correspondence + dense searches of all builders and Trotter circuits",
+        "Machine-checked proof that the suffix-state finite-state machine built by from_pauli_sum spells out exactly the list of terms it "
+        "was built from (any length, any terms incl. repeated, identity and zero-coefficient ones), and that one Ising Trotter step couples "
+        "every nearest-neighbour bond exactly once (plus the wrap-around bond when periodic) for every chain length. Exact ties: the real "
+        "tensors of from_pauli_sum(n_sweeps=0) decoded back into an FSM vs the model; the gate list and angles of create_ising_circuit vs "
+        "the model. PARTIAL (searched, not mechanised): dense interpretation of the tensors, dense = sparse, SVD compression within "
+        "tolerance, from_matrix round trip, boson/transmon automata, the other circuit builders (Heisenberg, 2-D snake order, "
+        "Fermi-Hubbard ladders) and Lie-Trotter convergence — every builder is compared with the dense sum of its documented terms and "
+        "every circuit with exp(-iHT) at 4/8/16 steps.",
+        COMMON_NOTE,
+        "DESIGN.md §3 C07"),
 }
 
 NOT_YET = "check not built yet in this round (planned in DESIGN.md §3); no claim is made"
